@@ -8,11 +8,11 @@ open ZodbModel ZodbModel.Undo
 
 theorem commitTxn_inv {L : Log} (hInv : Inv L) (tid : Nat) (stores : List (Nat × Bytes))
     (ht : ∀ t ∈ L, t.tid < tid) (hd : ∀ s ∈ stores, s.2 ≠ []) : Inv (commitTxn L tid stores) := by
-  refine ⟨?_, ht, hInv⟩
+  refine ⟨?_, ht, (fun hc => by cases hc), hInv⟩
   intro r hr
   simp only [List.mem_map] at hr
   obtain ⟨s, hs, rfl⟩ := hr
-  exact ⟨rfl, rfl, hd s hs⟩
+  exact ⟨rfl, fun _ => rfl, hd s hs⟩
 
 theorem applyOp_inv (resolve : Resolver) {L : Log} (hInv : Inv L) (o : Op) (ho : OpOK L o) :
     Inv (applyOp resolve L o) := by
@@ -33,32 +33,32 @@ theorem run_inv (resolve : Resolver) (ops : List Op) : ∀ (L : Log), Inv L → 
     intro L hInv hok
     exact ih _ (applyOp_inv resolve hInv o hok.1) hok.2
 
+theorem recOKb_iff (tid : Nat) (packed : Bool) (older : List Rec) (r : Rec) :
+    recOKb tid packed older r = true ↔ RecOK tid packed older r := by
+  unfold recOKb RecOK PayloadOK
+  cases hpl : r.pl with
+  | data d =>
+    cases packed <;> simp [payloadOKb, and_assoc]
+  | back b =>
+    cases packed <;> simp [payloadOKb, and_assoc]
+
 theorem invB_iff (L : Log) : invB L = true ↔ Inv L := by
   induction L with
   | nil => simp [invB, Undo.Inv]
   | cons t older ih =>
-    simp only [invB, Undo.Inv, Bool.and_eq_true, List.all_eq_true, decide_eq_true_eq, ih]
+    simp only [invB, Undo.Inv, Bool.and_eq_true, List.all_eq_true, decide_eq_true_eq, ih,
+      recOKb_iff, Bool.or_eq_true, Bool.not_eq_true']
     constructor
-    · rintro ⟨⟨h1, h2⟩, h3⟩
-      refine ⟨?_, h2, h3⟩
-      intro r hr
-      have := h1 r hr
-      simp only [recOKb, Bool.and_eq_true, decide_eq_true_eq] at this
-      refine ⟨this.1.1, this.1.2, ?_⟩
-      have hp := this.2
-      unfold PayloadOK
-      cases hpl : r.pl with
-      | data d => rw [hpl] at hp; simp only [payloadOKb, Bool.not_eq_true', List.isEmpty_eq_false_iff] at hp; exact hp
-      | back b => rw [hpl] at hp; simpa [payloadOKb] using hp
-    · rintro ⟨h1, h2, h3⟩
-      refine ⟨⟨?_, h2⟩, h3⟩
-      intro r hr
-      obtain ⟨a, b, c⟩ := h1 r hr
-      simp only [recOKb, Bool.and_eq_true, decide_eq_true_eq]
-      refine ⟨⟨a, b⟩, ?_⟩
-      unfold PayloadOK at c
-      cases hpl : r.pl with
-      | data d => rw [hpl] at c; simpa [payloadOKb] using c
-      | back b => rw [hpl] at c; simpa [payloadOKb] using c
+    · rintro ⟨⟨⟨h1, h2⟩, h3⟩, h4⟩
+      refine ⟨h1, h2, ?_, h4⟩
+      intro hp
+      rcases h3 with h3 | h3
+      · rw [hp] at h3; cases h3
+      · exact h3
+    · rintro ⟨h1, h2, h3, h4⟩
+      refine ⟨⟨⟨h1, h2⟩, ?_⟩, h4⟩
+      cases hp : t.packed with
+      | false => exact Or.inl rfl
+      | true => exact Or.inr (h3 hp)
 
 end Proofs.Undo
